@@ -52,14 +52,8 @@ def run(ctx, rep, tier):
     # W1
     q = CQ + "LegalizerBase::cellIsPlaced_"
     allowed = {"AbacusLegalizer::placeCell", "TetrisLegalizer::placeCell", "LegalizerBase::importLegalization", "LegalizerBase::LegalizerBase"}
-    ws = field_writes(ctx, q)
-    bad = [(f, x, u) for f, x, u in ws if f.short not in allowed]
-    if bad:
-        for f, x, u in bad:
-            rep.violation("W1", u.node, f, "write to cellIsPlaced_ in %s" % f.short, "%s; allowed: %s" % (u.why, sorted(allowed)),
-                          key="%s|writes cellIsPlaced_" % f.short)
-    else:
-        rep.holds("W1", "-", None, "cellIsPlaced_ writers", "%s" % sorted({f.short for f, _x, _u in ws}))
+    from .common import check_writers
+    check_writers(ctx, rep, "W1", q, {a: "" for a in allowed}, "LegalizerBase::cellIsPlaced_")
     c04.check_commits(ctx, rep, "AC")
     check_space(ctx, rep)
     check_import(ctx, rep)
@@ -280,14 +274,18 @@ def check_jx(ctx, rep):
             rep.unknown("JX", f.decl, f, "cell loop", "not found")
             continue
         l = loops[0]
-        incs = [x for x in walk(l["body"]) if x.get("kind") == "UnaryOperator" and x.get("opcode") == "++" and canon(x)[2][0] == "var" and canon(x)[2][2] == "j"]
+        incs = [x for x in walk(l["body"]) if x.get("kind") == "UnaryOperator" and x.get("opcode") == "++" and canon(x)[2][0] == "var" and canon(x)[2] != l["var"]]
+        if not incs:
+            rep.unknown("JX", l["stmt"], f, "movable-cell counter", "no second counter incremented in the cell loop (shape changed)")
+            continue
         if len(incs) != 1:
             rep.violation("JX", l["stmt"], f, "%d increment(s) of the movable-cell counter in the loop" % len(incs), "exactly one expected",
                           key="%s|counter increments" % f.short)
             continue
         jn = g.node_for(incs[0])
         edges = [(canon(a), v) for a, v, _e in g.dom_edges(jn) if "nbCells" not in pretty(canon(a))]
-        fixed_only = all((is_fixed_test(c) and v is False) or ("nbCells" in pretty(c)) or (c[0] == "bin" and c[1] in (">=", "<") and "j" in pretty(c)) for c, v in edges)
+        cname = canon(incs[0])[2][2]
+        fixed_only = all((is_fixed_test(c) and v is False) or ("nbCells" in pretty(c)) or (c[0] == "bin" and c[1] in (">=", "<") and cname in pretty(c)) for c, v in edges)
         # every path from the not-fixed edge to the loop increment passes the counter increment
         incn = g.node_for(l["inc"])
         fe = [e for a, v, e in g.dom_edges(jn) if is_fixed_test(canon(a)) and v is False]
